@@ -365,7 +365,7 @@ def _check_address(chm, M, p, j, k, ktype, case, stats, strict=True, splits=True
     shown = _show(a)
     stats.lookups += 1
     stats.form(exp[0])
-    key = a[0] if (len(a) == 1 and stats.lookups % 2 == 0) else a  # chm["a"] and chm[("a",)]
+    key = a[0] if (len(a) == 1 and case.get("pick", 0) % 2 == 0) else a  # chm["a"] and chm[("a",)]
     got = _observe(lambda: chm[key])
     d = _disagree(got, exp, strict)
     if d:
@@ -736,7 +736,7 @@ def run(ctx):
         finally:
             ctx.note_case(case, nontrivial=(nt and r in ("ok", "raise")), classes=classes + ["outcome:" + str(r or "violation")])
 
-    n = ctx.pick(125, 950)
+    n = ctx.pick(100, 600)
     ctx.run_hypothesis(case_strategy(ctx, jit_every=ctx.pick(10, 8)), chk, n, salt="terms")
 
 
